@@ -37,7 +37,7 @@ ASSUMPTIONS = [
     'taxonomy and int/float columns convert on every row',
 ]
 ANCHORS = ['Table.add_metadata', 'Table.del_metadata', 'Table._cast_metadata', 'MetadataMap.from_file', '_add_metadata']
-REQUIRED = ['mapfile_empty_list_levels', 'mapfile_quotes_kept', 'other_tables_rechecked', 'built_with_one_entry_object',
+REQUIRED = ['mapfile_odd_separator_characters_path', 'mapfile_empty_list_levels', 'mapfile_quotes_kept', 'other_tables_rechecked', 'built_with_one_entry_object',
             'built_from_other_tables_metadata', 'add_metadata_calls', 'add_on_axis_without_metadata',
             'add_partial_overlap', 'add_overwrite_existing_key',
             'del_metadata_calls', 'del_on_jagged_metadata', 'del_keys_none',
@@ -324,6 +324,13 @@ def gen_mapfile(r, ids, hdf5_safe=False, full_cover=False):
             k = kinds[name]
             if k == 'text':
                 v = r.choice(['soil', 'a b', 'x;y', 'é', '5', ''])
+                if r.random() < .12:
+                    # characters that some "split into lines" routines treat
+                    # as line ends, inside a field (only \n ends a line)
+                    v = r.choice(['in\x0bcell', 'form\x0cfeed', 'fs\x1csep',
+                                  'next\x85line', 'ls\u2028sep',
+                                  'ps\u2029sep', 'gs\x1dx'])
+                    feats.add('odd-separators')
                 if r.random() < .2 and not hdf5_safe:
                     v = '"' + v + ' "'
             elif k == 'int':
@@ -426,6 +433,8 @@ def run_mapfile(ctx, r, index):
         ctx.count('mapfile_short_rows')
     if 'empty-levels' in feats:
         ctx.count('mapfile_empty_list_levels')
+    if 'odd-separators' in feats:
+        ctx.count('mapfile_odd_separator_characters_' + how)
     g = {k: snap.canon_value(dict(v)) for k, v in dict(got).items()}
     if set(g) != set(exp) or any(not snap.md_equal([g[k]], [exp[k]])
                                  for k in exp):
